@@ -131,6 +131,47 @@ def c03(run):
     res = run_tlc("GEN_ScanX", "gen/GEN_ScanX.tla", "gen/GEN_ScanX_%s.cfg" % run.tier, env=run.known_env(), consumer=[HARNESS, "replay", "C03"], timeout=6000)
     run.add_informational("GEN_ScanX", res, "S->I beyond C03: rules of fragment F1 (n-by-n substitution, deletion, metathesis, insertion; contexts and exceptions up to two elements a side) x every word "
                                             "<= %d segments over {a,t,i} in every syllabification, ScanX!RunX replayed on the real interpreter" % (5 if run.tier == "thorough" else 4))
+    # ... and in the other direction over the FULL inventory: recorded applications of F1 rules judged by TLC against ScanX!RunX (informational as well)
+    asts = gen_rules(run, "f1")
+    out = os.path.join(BUILD, "rec-C03-f1.ndjson")
+    summary, _ = run_harness(["record", "C03X", asts, out, str(8 if run.tier == "thorough" else 6)], env=run.known_env(), timeout=6000)
+    nrec = summary["extra"].get("records", 0)
+    parts, fh, n = [], None, 0
+    for line in open(out):
+        if n % 30000 == 0:
+            if fh: fh.close()
+            parts.append("%s.part%d" % (out, len(parts)))
+            fh = open(parts[-1], "w")
+        fh.write(line); n += 1
+    if fh: fh.close()
+    rejected, skipped, distinct, gen, wall = set(), set(), 0, 0, 0.0
+    for part in parts:
+        res = run_tlc("TV_ScanX", "tv/TV_ScanX.tla", "tv/TV_ScanX.cfg", env=dict(run.known_env(), TRACE=part), timeout=6000, heap="12g")
+        rejected |= set(json.loads(x)["rejected_record"] for x in res.printed if isinstance(x, str) and "rejected_record" in x)
+        skipped |= set(json.loads(x)["skipped_record"] for x in res.printed if isinstance(x, str) and "skipped_record" in x)
+        distinct += res.distinct; gen += res.generated; wall += res.wall
+        os.remove(part)
+    if distinct != 2 * nrec:
+        raise ToolError("TV_ScanX examined %d states for %d records" % (distinct, nrec))
+    examples = []
+    for line in open(out + ".meta"):
+        m = json.loads(line)
+        if m["id"] in rejected and len(examples) < 8:
+            examples.append({k: m.get(k) for k in ("rule", "word", "after", "outcome", "detail")})
+    run.cov["states"] += distinct
+    run.cov["transitions"] += gen
+    run.cov["jobs"]["TV_ScanX"] = {"kind": "I->S beyond C03: applications of fragment-F1 rules (n-by-n substitution, deletion, metathesis, insertion; literals from all 365 cardinals, matrices over all 26 features) "
+                                           "on words assembled from the rule's own elements, recorded from the real interpreter and judged by TLC against ScanX!RunX",
+                                   "verdict": "informational (outside the listed property)", "distinct_states": distinct, "states_generated": gen, "wall_s": round(wall, 1),
+                                   "records": nrec, "judged": nrec - len(skipped), "outside_fragment": len(skipped), "accepted": nrec - len(skipped) - len(rejected), "divergences": len(rejected),
+                                   "divergence_examples": examples}
+    run.cov["traces_validated_against_impl"] += nrec - len(skipped) - len(rejected)
+    print("[check] tlc TV_ScanX %d records: %d judged, %d accepted, %d diverge (informational)" % (nrec, nrec - len(skipped), nrec - len(skipped) - len(rejected), len(rejected)))
+    if rejected and examples:
+        print("NOTE: TV_ScanX: %d of %d judged records diverge from the specification outside the listed property (not a verdict), e.g. %s" % (len(rejected), nrec - len(skipped), json.dumps(examples[0], ensure_ascii=False)[:300]))
+    for f in (asts, out, out + ".meta"):
+        try: os.remove(f)
+        except OSError: pass
     run.cov["rule"] = ("rules of the basic fragment over inventory {a,t,i}: 8 inputs (IPA, [+syll], [-syll], [], C, two sets) x 5 outputs (IPA or feature matrix) x environments over "
                        "{a, t, [+syll], C, {a,t}, $, #}; strata sampled by rule index % Stride = seed % Stride (quick) or densely (thorough); words: all segment strings in all syllabifications "
                        "without in-syllable runs at any stage; non-trivial = the rule rewrites at least one segment")
